@@ -193,6 +193,8 @@ def run(eng, run):
     check_one_error(eng, run)
     from rules import c01, c10
     c01.check_consume_once(eng, run, rule="C02.keep")
+    from sa.report import RuleAlias
+    c01.check_scan(eng, RuleAlias(run, "C02.scan"))  # 'two independent separator scanners must agree' (shape facts of C01.scan)
     c01.check_json_close(eng, run, rule="C02.err")
     c10.check_conservation(eng, run, rule="C02.bound")
     c10.check_raw_buffer_reads(eng, run, rule="C02.bound")
